@@ -4,7 +4,9 @@ package main
 import (
 	"bytes"
 	"fmt"
+	"github.com/gobwas/httphead"
 	"io"
+	"strings"
 	"verifmc/env"
 
 	"github.com/gobwas/ws"
@@ -151,6 +153,107 @@ func main() {
 					}
 				}
 			}
+		})
+
+		// Lists of every length: n subprotocols of which the selector wants the last, n extension
+		// offers all of which are accepted (n = 1..24, in one header line or one line each),
+		// through every selection path: the response names exactly the chosen protocol and all n
+		// extensions with their parameters, and so does the returned handshake.
+		r.Part("E4-protocol-and-extension-lists-of-every-length", func(t *explore.T) {
+			for n := 1; n <= 24; n++ {
+				for _, split := range []bool{false, true} {
+					for _, path := range []string{"Protocol+Extension", "ProtocolCustom+ExtensionCustom", "Protocol+Negotiate", "HTTPUpgrader"} {
+						n, split, path := n, split, path
+						t.Do(func() string {
+							return fmt.Sprintf("%d protocols and %d extensions (one line each: %v) through %s", n, n, split, path)
+						}, func() *explore.Fail {
+							var protos, exts []string
+							for i := 0; i < n; i++ {
+								protos = append(protos, fmt.Sprintf("proto%02d", i))
+								exts = append(exts, fmt.Sprintf("ext%02d; p=%d", i, i))
+							}
+							want := protos[n-1]
+							var b strings.Builder
+							b.WriteString("GET /chat HTTP/1.1\r\nHost: example.com\r\nUpgrade: websocket\r\nConnection: Upgrade\r\nSec-WebSocket-Key: " + hs.CanonKey + "\r\nSec-WebSocket-Version: 13\r\n")
+							if split {
+								for i := 0; i < n; i++ {
+									b.WriteString("Sec-WebSocket-Protocol: " + protos[i] + "\r\nSec-WebSocket-Extensions: " + exts[i] + "\r\n")
+								}
+							} else {
+								b.WriteString("Sec-WebSocket-Protocol: " + strings.Join(protos, ", ") + "\r\nSec-WebSocket-Extensions: " + strings.Join(exts, ", ") + "\r\n")
+							}
+							b.WriteString("\r\n")
+							var out []byte
+							var hsk ws.Handshake
+							var err error
+							switch path {
+							case "HTTPUpgrader":
+								u := ws.HTTPUpgrader{Protocol: func(s string) bool { return s == want }, Extension: func(httphead.Option) bool { return true }}
+								var skipped bool
+								out, hsk, err, skipped = hs.RunHTTPUpgrader(u, []byte(b.String()))
+								if skipped {
+									return nil
+								}
+							default:
+								u := ws.Upgrader{}
+								switch path {
+								case "Protocol+Extension":
+									u.Protocol = func(p []byte) bool { return string(p) == want }
+									u.Extension = func(httphead.Option) bool { return true }
+								case "Protocol+Negotiate":
+									u.Protocol = func(p []byte) bool { return string(p) == want }
+									u.Negotiate = func(o httphead.Option) (httphead.Option, error) { return o.Clone(), nil }
+								default:
+									u.ProtocolCustom = func(v []byte) (string, bool) {
+										sel := ""
+										ok := httphead.ScanTokens(v, func(tok []byte) bool {
+											if string(tok) == want {
+												sel = want
+												return false
+											}
+											return true
+										})
+										return sel, ok
+									}
+									u.ExtensionCustom = func(v []byte, dst []httphead.Option) ([]httphead.Option, bool) {
+										return (httphead.OptionSelector{Flags: httphead.SelectCopy}).Select(v, dst)
+									}
+								}
+								out, hsk, err = hs.RunUpgrader(u, strings.NewReader(b.String()))
+							}
+							if err != nil {
+								return explore.Failf("refuses-compliant:"+path, "%v", err)
+							}
+							if hsk.Protocol != want {
+								return explore.Failf("protocol-selection:"+path, "returned %q want %q", hsk.Protocol, want)
+							}
+							var got []string
+							for _, o := range hsk.Extensions {
+								p, _ := o.Parameters.Get("p")
+								got = append(got, string(o.Name)+"; p="+string(p))
+							}
+							if strings.Join(got, ", ") != strings.Join(exts, ", ") {
+								return explore.Failf("extension-selection:"+path, "returned %v want %v", got, exts)
+							}
+							h := hs.ParseHead(out)
+							var sent []string
+							for _, v := range h.Get("Sec-WebSocket-Extensions") {
+								for _, x := range strings.Split(v, ",") {
+									sent = append(sent, strings.Join(strings.Fields(strings.ReplaceAll(x, ";", "; ")), " "))
+								}
+							}
+							if g := h.Get("Sec-WebSocket-Protocol"); len(g) != 1 || g[0] != want || h.Status() != 101 {
+								return explore.Failf("response-protocol:"+path, "%v", g)
+							}
+							if strings.Join(sent, ", ") != strings.Join(exts, ", ") {
+								return explore.Failf("response-extensions:"+path, "sent %v want %v", sent, exts)
+							}
+							return nil
+						})
+					}
+				}
+			}
+			t.Outcome("exact")
 		})
 	})
 }
